@@ -101,7 +101,7 @@ func runItem(t *testing.T, it *WorkItem, wal *os.File) *WorkResult {
 			return res
 		}
 		e.Run()
-		res.Stats, res.Found, res.Sample, res.Sample2 = e.Stats, e.Found, e.Sample, e.Sample2
+		res.Stats, res.Found, res.Sample, res.Sample2, res.Warnings = e.Stats, e.Found, e.Sample, e.Sample2, e.Warnings
 	case "enum":
 		if pd.Enum == nil {
 			res.Err = "no enumerator for " + it.Prop
